@@ -67,13 +67,20 @@ def repair_budget_reads(n, k):
     return 2 * n + 40 * k * (n + k + 1) + 100
 
 
+def heap_value(heap):
+    """Cases store an unlimited heap as the string 'inf' (JSON has no infinity)."""
+    return float("inf") if heap == "inf" else heap
+
+
 def repair_budget_jumps(n, k, heap):
+    heap = heap_value(heap)
     return 400 * (n + k + 2) * (k + 2) + 60 * int(min(heap, 1e6)) * (n // max(k, 1) + 4) + 20000
 
 
 def call_repair(dsw, s, acc, start, k, check=None, has_indel=False, heap=1e3, count_reads=False):
     """Returns (kind, value, reads, steps): kind in ok / raised / budget / lookups."""
     n = len(s)
+    heap = heap_value(heap)
     proxy = CountingAccessor(acc, read_budget=repair_budget_reads(n, k)) if count_reads else acc
     with clock.budget(repair_budget_jumps(n, k, heap)) as b:
         try:
